@@ -87,6 +87,7 @@ structure Settings where
 structure St where
   data : List Nat          -- file contents
   pos : Nat                -- file position (may lie beyond the end after a seek)
+  rest : List Nat          -- = data.drop pos (kept so that sequential reads do not re-walk the file)
   failed : Bool            -- istream in fail state (every later read returns nothing, seeks are ignored)
   dev : Dev
   taint : Option String    -- first place where bytes a short read did not deliver were used as data
@@ -109,9 +110,9 @@ def setTaint (why : String) : M Unit :=
 def readSome (n : Nat) : M (List Nat) := fun s =>
   if s.failed then .ok ([], s)
   else
-    let got := (s.data.drop s.pos).take n
-    let hitEnd := s.pos ≥ s.data.length || got.length < n
-    .ok (got, { s with pos := s.pos + got.length, failed := s.dev == .stream && hitEnd })
+    let got := s.rest.take n
+    let hitEnd := s.rest.isEmpty || got.length < n
+    .ok (got, { s with pos := s.pos + got.length, rest := s.rest.drop n, failed := s.dev == .stream && hitEnd })
 
 /-- fixed-size array read `read(T(&)[N])`: the file device checks the count, the istream device does not
     (its caller then consumes the uninitialised stack array) -/
@@ -137,11 +138,11 @@ def readU32 : M Int := do
 /-- `seek(off, SEEK_SET)` with `off` already converted to `long` -/
 def seekSet (off : Int) : M Unit := fun s =>
   match s.dev with
-  | .file => if off < 0 then .error (.err "io") else .ok ((), { s with pos := off.toNat })
+  | .file => if off < 0 then .error (.err "io") else .ok ((), { s with pos := off.toNat, rest := s.data.drop off.toNat })
   | .stream =>
     if s.failed then .ok ((), s)
     else if off < 0 then .ok ((), { s with failed := true })
-    else .ok ((), { s with pos := off.toNat })
+    else .ok ((), { s with pos := off.toNat, rest := s.data.drop off.toNat })
 
 def seekCur (d : Int) : M Unit := do
   let s ← get
@@ -191,7 +192,9 @@ def Dest.pix (d : Dest) : List Nat := d.rows.toList.flatten
 
 /-- `std::copy(beg, end, view.row_begin(y))` of `px` (whole pixels, `nch` bytes each) -/
 def Dest.setRow (site : String) (d : Dest) (y : Int) (px : List Nat) : M Dest :=
-  if y < 0 ∨ y ≥ d.vh ∨ Int.ofNat px.length > d.vw * d.nch then
+  if y < 0 ∨ y ≥ d.vh then
+    ubAt ("assert@" ++ site) "view.row_begin(y): BOOST_ASSERT(0 <= y && y < height())"
+  else if Int.ofNat px.length > d.vw * d.nch then
     ubAt ("heap-buffer-overflow@" ++ site) "row written outside the destination view"
   else
     pure { d with rows := d.rows.setIfInBounds y.toNat (px ++ (d.rows.getD y.toNat []).drop px.length) }
@@ -731,6 +734,445 @@ def run (st : Settings) (fuel : Nat) : M Img := do
 
 end Bmp
 
+/-! ## PNM -/
+namespace Pnm
+
+structure Info where
+  type : Int
+  width : Int
+  height : Int
+  maxValue : Int
+  deriving Repr
+
+def fBackend := "extension/io/pnm/detail/reader_backend.hpp"
+def fRead := "extension/io/pnm/detail/read.hpp"
+def fScan := "extension/io/pnm/detail/scanline_read.hpp"
+
+def isDigit (c : Nat) : Bool := 48 ≤ c && c ≤ 57
+/-- isspace in the "C" locale -/
+def isSpace (c : Nat) : Bool := c == 32 || (9 ≤ c && c ≤ 13)
+
+/-- skip a comment to end of line; every `getc()` throws at end of file. One unit of fuel per character. -/
+def skipComment : Nat → M Nat
+  | 0 => stop (.hang "fuel exhausted in read_char")
+  | fuel + 1 => do
+    let c ← getcChecked
+    if c == 10 ∨ c == 13 then pure c else skipComment fuel
+
+/-- reader_backend::read_char -/
+def readChar (fuel : Nat) : M Nat := do
+  let c ← getcChecked
+  if c == 35 then skipComment fuel else pure c
+
+def skipWs (fuel : Nat) : Nat → M Nat
+  | 0 => stop (.hang "fuel exhausted in read_int")
+  | k + 1 => do
+    let c ← readChar fuel
+    if c == 32 ∨ c == 9 ∨ c == 10 ∨ c == 13 then skipWs fuel k else pure c
+
+def digitsLoop (fuel : Nat) : Nat → Nat → Nat → M Int
+  | 0, _, _ => stop (.hang "fuel exhausted in read_int")
+  | k + 1, c, val => do
+    let dig := c - 48
+    if val > 214748364 - dig then ioErr      -- val > INT_MAX / 10 - dig
+    else
+      let val := val * 10 + dig
+      let c ← readChar fuel
+      if isDigit c then digitsLoop fuel k c val else pure (Int.ofNat val)
+
+/-- reader_backend::read_int -/
+def readInt (fuel : Nat) : M Int := do
+  let c ← skipWs fuel fuel
+  if !isDigit c then ioErr else digitsLoop fuel fuel c 0
+
+/-- reader_backend::read_header -/
+def readHeader (fuel : Nat) : M Info := do
+  let p ← readChar fuel
+  if p ≠ 80 then ioErr
+  else
+    let t ← readChar fuel
+    -- _info._type = read_char() - '0' (char is signed, the field unsigned): valid iff '1'..'6'
+    if t < 49 ∨ t > 54 then ioErr
+    else
+      let ty : Int := Int.ofNat (t - 48)
+      let w ← readInt fuel
+      let h ← readInt fuel
+      if ty == 1 ∨ ty == 4 then pure { type := ty, width := w, height := h, maxValue := 1 }
+      else
+        let m ← readInt fuel
+        if m > 255 then ioErr else pure { type := ty, width := w, height := h, maxValue := m }
+
+/-- is_allowed<View>(info, is_read_and_no_convert) -/
+def isAllowed (i : Info) (st : Settings) : Bool :=
+  if st.entry == .conv then true
+  else
+    let (asc, bin) : Int × Int := match st.dst with
+      | .gray1 => (1, 4) | .gray8 => (2, 5) | .rgb8 => (3, 6) | _ => (0, 0)
+    if i.type == 1 then asc == 2 else (asc == i.type || bin == i.type)
+
+/-- decimal value of a digit string modulo 256 (`static_cast<byte_t>(atoi(buf))`, at most 15 digits) -/
+def atoiByte (ds : List Nat) : Nat := (ds.foldl (fun v d => v * 10 + (d - 48)) 0) % 256
+
+/-- one token of a text row: `some digits`, or `none` when the row ends early (EOF or a non-space character).
+    One unit of fuel per character. -/
+def token (site : String) : Nat → List Nat → M (Option (List Nat))
+  | 0, _ => stop (.hang "fuel exhausted in read_text_row")
+  | fuel + 1, acc => do
+    let c ← getcUnchecked
+    match c with
+    | some ch =>
+      if isDigit ch then
+        if acc.length ≥ 15 then ioErr          -- k >= sizeof(buf) - 1: "Number too long in pnm file."
+        else token site fuel (acc ++ [ch])
+      else if acc.length > 0 then pure (some acc)
+      else if !isSpace ch then pure none
+      else token site fuel acc
+    | none => if acc.length > 0 then pure (some acc) else pure none
+
+/-- the `for (x < _scanline_length)` loop of read_text_row; returns the row buffer and whether all samples were read -/
+def textSamples (site : String) (fuel : Nat) (maxValue : Int) (process : Bool) : Nat → Nat → List Nat → M (List Nat × Bool)
+  | 0, _, row => pure (row, true)
+  | n + 1, x, row => do
+    match ← token site fuel [] with
+    | none => pure (row, false)
+    | some ds =>
+      if process then
+        let v := atoiByte ds
+        let b := if maxValue == 1 then (if ds.foldl (fun v d => v * 10 + (d - 48)) 0 % 4294967296 ≠ 0 then 0 else 255) else v
+        textSamples site fuel maxValue process n (x + 1) (row.set x b)
+      else textSamples site fuel maxValue process n (x + 1) row
+
+def gray1To (dst : Dst) (bits : List Nat) : List Nat :=
+  match dst with
+  | .rgb8 => bits.flatMap (fun b => let v := if b == 0 then 0 else 255; [v, v, v])
+  | _ => bits
+def gray8To (dst : Dst) (xs : List Nat) : List Nat :=
+  match dst with
+  | .rgb8 => xs.flatMap (fun v => [v, v, v])
+  | _ => xs
+
+/-- rows of read_text_data: `skip` rows without processing, then one row per destination row -/
+def textRows (i : Info) (st : Settings) (dimx : Int) (sl : Nat) (srcCh : Nat) (fuel : Nat) (site : String) :
+    Nat → Bool → Int → List Nat → Dest → M Dest
+  | 0, _, _, _, d => pure d
+  | n + 1, process, y, row, d => do
+    let (row, complete) ← textSamples site fuel i.maxValue process sl 0 row
+    if process ∧ complete then
+      -- copy_data: beg = src.row_begin(0) + top_left.x ; end = beg + dim.x
+      let px ← sliceRow (fRead ++ ":copy_data") row srcCh st.x0 dimx sl
+      let px := if srcCh == 1 then gray8To st.dst px else px
+      let d ← d.setRow (fRead ++ ":copy_data") y px
+      textRows i st dimx sl srcCh fuel site n process (y + 1) row d
+    else
+      -- an incomplete row returns before copy_data: the destination row keeps its previous content
+      textRows i st dimx sl srcCh fuel site n process (y + 1) row d
+
+/-- read_text_data -/
+def readTextData (i : Info) (st : Settings) (dimx : Int) (sl : Int) (srcCh : Nat) (fuel : Nat) (d : Dest) : M Dest := do
+  alloc sl
+  let site := fRead ++ ":read_text_row"
+  let rowsSkip := if st.y0 > 0 then st.y0.toNat else 0
+  let rowsRead := if d.vh > 0 then d.vh.toNat else 0
+  if sl == 0 ∧ (rowsSkip > 0 ∨ rowsRead > 0) then
+    ubAt ("vector-empty@" ++ site) "&row.front() on an empty row buffer (zero width taken from the file)"
+  else
+    let row := List.replicate sl.toNat 0
+    -- the skipped rows fill `row` with nothing (process = false)
+    let d ← textRows i st dimx sl.toNat srcCh fuel site rowsSkip false 0 row d
+    textRows i st dimx sl.toNat srcCh fuel site rowsRead true 0 row d
+
+/-- in-place manipulators of a bit row: negate_bits then swap_half_bytes -/
+def manipBits (row : List Nat) : List Nat := row.map (fun b => let n := 255 - b; n % 16 * 16 + n / 16)
+
+def bitsOf (row : List Nat) : List Nat :=
+  row.flatMap (fun b => [b % 2, b / 2 % 2, b / 4 % 2, b / 8 % 2, b / 16 % 2, b / 32 % 2, b / 64 % 2, b / 128 % 2])
+
+def skipBinRows (site : String) (sl : Nat) : Nat → List Nat → M (List Nat)
+  | 0, buf => pure buf
+  | n + 1, buf => do
+    let (buf, _) ← readInto site buf sl
+    skipBinRows site sl n buf
+
+/-- rows of read_bin_data; `unit` = pixels the row buffer holds per byte of `_scanline_length`
+    (gray1: 8 pixels per byte; gray8 / rgb8: the buffer has `_scanline_length` *pixels*) -/
+def binRows (i : Info) (st : Settings) (dimx : Int) (sl : Nat) (site : String) : Nat → Int → List Nat → Dest → M Dest
+  | 0, _, _, d => pure d
+  | n + 1, y, buf, d => do
+    let (buf, got) ← readInto site buf sl
+    if i.type == 4 then
+      let buf := manipBits buf
+      if dimx ≤ 0 then binRows i st dimx sl site n (y + 1) buf d
+      else if st.x0 < 0 ∨ st.x0 + dimx > Int.ofNat sl * 8 then
+        ubAt ("heap-buffer-overflow@" ++ site) "sub-rectangle columns outside the row buffer (settings are not checked against the image width)"
+      else
+        if Int.ofNat got * 8 < st.x0 + dimx then setTaint ("short row read used as pixel data in " ++ site) else pure ()
+        let px := gray1To st.dst (((bitsOf buf).drop st.x0.toNat).take dimx.toNat)
+        let d ← d.setRow site y px
+        binRows i st dimx sl site n (y + 1) buf d
+    else
+      let ch : Nat := if i.type == 6 then 3 else 1
+      -- the row buffer is a std::vector of `_scanline_length` pixels (ch bytes each): only its first sl bytes are read into
+      if dimx ≤ 0 then binRows i st dimx sl site n (y + 1) buf d
+      else if st.x0 < 0 ∨ st.x0 + dimx > Int.ofNat sl then
+        ubAt ("heap-buffer-overflow@" ++ site) "sub-rectangle columns outside the row buffer (settings are not checked against the image width)"
+      else
+        if Int.ofNat got < (st.x0 + dimx) * ch ∧ (st.x0 + dimx) * ch ≤ Int.ofNat sl then
+          setTaint ("short row read used as pixel data in " ++ site) else pure ()
+        -- bytes beyond the first sl of the over-allocated buffer are value-initialised and never written
+        let bytes := ((buf ++ List.replicate (sl * ch - sl) 0).drop (st.x0.toNat * ch)).take (dimx.toNat * ch)
+        let px := if ch == 1 then gray8To st.dst bytes else bytes
+        let d ← d.setRow site y px
+        binRows i st dimx sl site n (y + 1) buf d
+
+/-- read_bin_data -/
+def readBinData (i : Info) (st : Settings) (dimx : Int) (sl : Int) (d : Dest) : M Dest := do
+  let ch : Int := if i.type == 6 then 3 else 1
+  alloc (sl * ch)                               -- row_buffer_helper(_scanline_length, true)
+  let site := fRead ++ ":read_bin_data"
+  let rowsSkip := if st.y0 > 0 then st.y0.toNat else 0
+  let rowsRead := if d.vh > 0 then d.vh.toNat else 0
+  if sl == 0 ∧ i.type == 4 then
+    ubAt ("vector-empty@" ++ site) "rh.begin() == &_row_buffer.front() on an empty row buffer (zero width taken from the file)"
+  else if sl == 0 ∧ (rowsSkip > 0 ∨ rowsRead > 0) then
+    ubAt ("vector-index@" ++ site) "rh.data() == &_row_buffer[0] on an empty row buffer (zero width taken from the file)"
+  else
+    let buf ← skipBinRows site sl.toNat rowsSkip (List.replicate sl.toNat 0)
+    binRows i st dimx sl.toNat site rowsRead 0 buf d
+
+/-- reader::apply -/
+def apply (i : Info) (st : Settings) (dimx : Int) (fuel : Nat) (d : Dest) : M Dest := do
+  if !isAllowed i st then ioErr
+  else if i.type == 1 ∨ i.type == 2 then readTextData i st dimx i.width 1 fuel d
+  else if i.type == 3 then readTextData i st dimx (i.width * 3) 3 fuel d
+  else if i.type == 4 then readBinData i st dimx (wrapU 32 (i.width + 7) / 8) d
+  else if i.type == 5 then readBinData i st dimx i.width d
+  else readBinData i st dimx (i.width * 3) d
+
+/-- scanline reader: text row written straight into the iterator's buffer -/
+def scanTextRow (fuel : Nat) (maxValue : Int) (sl : Nat) (dst : List Nat) : M (List Nat) := do
+  let (row, _) ← textSamples (fScan ++ ":read_text_row") fuel maxValue true sl 0 dst
+  pure row
+
+def scanRows (rowFn : List Nat → M (List Nat)) : Nat → List Nat → List (List Nat) → M (List (List Nat))
+  | 0, _, acc => pure acc
+  | n + 1, buf, acc => do
+    let buf ← rowFn buf
+    scanRows rowFn n buf (buf :: acc)
+
+def scan (i : Info) (fuel : Nat) : M Img := do
+  let sl : Int :=
+    if i.type == 1 ∨ i.type == 2 ∨ i.type == 5 then i.width
+    else if i.type == 3 ∨ i.type == 6 then i.width * 3
+    else wrapU 32 (i.width + 7) / 8
+  if i.height > scanRowLimit then stop (.err "big") else
+  alloc sl
+  if sl == 0 then
+    ubAt ("vector-empty@" ++ fScan ++ ":begin") "scanline_read_iterator: &buffer_->front() on an empty buffer (zero width taken from the file)"
+  else
+    let site := fScan ++ ":read_binary_row"
+    let rs ← scanRows (fun dst => do
+        if i.type ≤ 3 then scanTextRow fuel i.maxValue sl.toNat dst
+        else
+          let (row, got) ← readInto site dst sl.toNat
+          if got < sl.toNat then setTaint ("short row read used as pixel data in " ++ site) else pure ()
+          pure (if i.type == 4 then manipBits row else row))
+      i.height.toNat (List.replicate sl.toNat 0) []
+    pure { hdr := [i.width, i.height, sl, i.height], pix := rs.reverse.flatten }
+
+def run (st : Settings) (fuel : Nat) : M Img := do
+  let i ← readHeader fuel
+  let dimx := if st.dw == 0 then i.width else st.dw
+  let dimy := if st.dh == 0 then i.height else st.dh
+  match st.entry with
+  | .info => pure { hdr := [i.width, i.height, i.type, i.maxValue], pix := [] }
+  | .scan => scan i fuel
+  | .view =>
+    checkImageSize st dimx dimy i.width i.height
+    let d ← apply i st dimx fuel (Dest.mk' st.vw st.vh st.dst.nch)
+    pure { hdr := [st.vw, st.vh], pix := d.pix }
+  | _ =>
+    let d ← recreateImage st dimx dimy
+    let d ← apply i st dimx fuel d
+    pure { hdr := [dimx, dimy], pix := d.pix }
+
+end Pnm
+
+/-! ## TARGA -/
+namespace Tga
+
+structure Info where
+  offset : Int
+  cmType : Int
+  imageType : Int
+  cmLength : Int
+  width : Int
+  height : Int
+  bpp : Int
+  descriptor : Int
+  origin : Bool
+  deriving Repr
+
+def fBackend := "extension/io/targa/detail/reader_backend.hpp"
+def fRead := "extension/io/targa/detail/read.hpp"
+def fScan := "extension/io/targa/detail/scanline_read.hpp"
+
+/-- reader_backend::read_header -/
+def readHeader : M Info := do
+  let idl ← readU8
+  let offset := wrapU 8 (idl + 18)              -- targa_offset::type is uint8_t
+  let cmt ← readU8
+  let it ← readU8
+  let _ ← readU16
+  let cml ← readU16
+  let _ ← readU8
+  let _ ← readU16
+  let _ ← readU16
+  let w ← readU16
+  let h ← readU16
+  if w < 1 ∨ h < 1 then ioErr
+  else
+    let bpp ← readU8
+    if bpp ≠ 24 ∧ bpp ≠ 32 then ioErr
+    else
+      let desc ← readU8
+      if it == 1 ∧ desc ≠ 0 then ioErr
+      else if bpp == 24 ∧ desc.toNat % 16 ≠ 0 then ioErr
+      else if bpp == 32 ∧ desc ≠ 8 ∧ desc ≠ 40 then ioErr
+      else pure { offset := offset, cmType := cmt, imageType := it, cmLength := cml, width := w, height := h, bpp := bpp,
+                  descriptor := desc, origin := desc.toNat / 32 % 2 == 1 }
+
+def cvtBgrx (bpp : Nat) (dst : Dst) (px : List Nat) : List Nat :=
+  if bpp == 3 then Bmp.cvtBgr dst px else Bmp.cvtBgra dst px
+
+/-- destination row of `view.row_begin(y)` where view is the destination, flipped when the origin bit is set -/
+def dstRow (i : Info) (d : Dest) (y : Int) : Int := if i.origin then d.vh - 1 - y else y
+
+def rawRows (i : Info) (st : Settings) (dimx : Int) (bpp : Nat) (site : String) : Nat → Int → List Nat → Dest → M Dest
+  | 0, _, _, d => pure d
+  | n + 1, y, row, d => do
+    let (row, got) ← readInto site row row.length
+    let px ← sliceRow site row bpp st.x0 dimx got
+    let d ← d.setRow site (dstRow i d y) (cvtBgrx bpp st.dst px)
+    rawRows i st dimx bpp site n (y - 1) row d
+
+/-- read_data -/
+def readData (i : Info) (st : Settings) (dimx dimy : Int) (d : Dest) : M Dest := do
+  let bpp := (i.bpp / 8).toNat
+  let rowSize := i.width * bpp
+  alloc rowSize
+  let skipped : Int := if i.origin then st.y0 else i.height - st.y0 - dimy
+  seekSet (wrapS 64 (i.offset + wrapU 64 (wrapU 64 skipped * rowSize)))
+  rawRows i st dimx bpp (fRead ++ ":read_data") (if dimy > 0 then dimy.toNat else 0) (dimy - 1) (List.replicate rowSize.toNat 0) d
+
+def fRle := fRead ++ ":read_rle_data"
+
+def readBytes : Nat → List Nat → M (List Nat)
+  | 0, acc => pure acc.reverse
+  | n + 1, acc => do
+    let b ← readU8
+    readBytes n (b.toNat :: acc)
+
+/-- the packet loop of read_rle_data: `data` is image_data up to `pixel` (reversed chunks), one unit of fuel per packet -/
+def rleLoop (bpp : Nat) (imageSize : Nat) : Nat → Nat → List (List Nat) → M (List (List Nat))
+  | 0, _, _ => stop (.hang "fuel exhausted in read_rle_data")
+  | fuel + 1, pixel, acc =>
+    if pixel < imageSize then do
+      let cur ← readU8
+      if cur ≥ 128 then
+        let chunk := (cur - 127).toNat
+        if pixel + chunk * bpp > imageSize then ioErr
+        else
+          let px ← readBytes bpp []
+          rleLoop bpp imageSize fuel (pixel + chunk * bpp) ((List.replicate chunk px).flatten :: acc)
+      else
+        let written := (cur.toNat + 1) * bpp
+        if pixel + written > imageSize then ioErr
+        else
+          let got ← readSome written
+          if got.length < written then setTaint ("short packet read used as pixel data in " ++ fRle) else pure ()
+          rleLoop bpp imageSize fuel (pixel + written) ((got ++ List.replicate (written - got.length) 0) :: acc)
+    else pure acc
+
+def rleCopyRows (i : Info) (st : Settings) (dimx : Int) (bpp : Nat) (data : List Nat) (firstRow : Int) : Nat → Int → Dest → M Dest
+  | 0, _, d => pure d
+  | n + 1, y, d => do
+    -- beg = v.row_begin(first_row + y) + top_left.x over the flipped whole-image view v
+    let r := i.height - 1 - (firstRow + y)
+    let start := (r * i.width + st.x0) * bpp
+    let px ← if firstRow + y < 0 ∨ firstRow + y ≥ i.height then
+        ubAt ("assert@" ++ fRle) "v.row_begin(first_row + y): BOOST_ASSERT(0 <= y && y < height()) (settings are not checked against the image size)"
+      else if dimx ≤ 0 then pure []
+      else if start < 0 ∨ start + dimx * bpp > Int.ofNat data.length then
+        ubAt ("heap-buffer-overflow@" ++ fRle) "sub-rectangle outside the decoded image (settings are not checked against the image size)"
+      else pure ((data.drop start.toNat).take (dimx.toNat * bpp))
+    let d ← d.setRow fRle (dstRow i d y) (cvtBgrx bpp st.dst px)
+    rleCopyRows i st dimx bpp data firstRow n (y + 1) d
+
+/-- read_rle_data -/
+def readRleData (i : Info) (st : Settings) (dimx dimy : Int) (fuel : Nat) (d : Dest) : M Dest := do
+  let bpp := (i.bpp / 8).toNat
+  -- size_t image_size = _info._width * _info._height * bytes_per_pixel   (uint16 * uint16 * uint8 in int)
+  if !inS32 (i.width * i.height) ∨ !inS32 (i.width * i.height * bpp) then
+    ubAt ("signed-integer-overflow@" ++ fRle) "_info._width * _info._height * bytes_per_pixel overflows int"
+  else
+    let imageSize := (i.width * i.height * bpp).toNat
+    alloc imageSize
+    seekSet i.offset
+    let chunks ← rleLoop bpp imageSize fuel 0 []
+    let data := chunks.reverse.flatten
+    let firstRow : Int := if i.origin then i.height - st.y0 - dimy else st.y0
+    if dimy < 0 then stop (.hang "negative dim.y: `y != dim.y` is never reached")
+    else rleCopyRows i st dimx bpp data firstRow dimy.toNat 0 d
+
+/-- reader::apply -/
+def apply (i : Info) (st : Settings) (dimx dimy : Int) (fuel : Nat) (d : Dest) : M Dest := do
+  if st.entry ≠ .conv ∧ st.dst.bits ≠ i.bpp then ioErr
+  else if i.imageType == 2 ∨ i.imageType == 10 then
+    if i.cmType ≠ 0 then ioErr
+    else if i.cmLength ≠ 0 then ioErr
+    else if i.imageType == 2 then readData i st dimx dimy d
+    else readRleData i st dimx dimy fuel d
+  else ioErr
+
+def scanRows (i : Info) (sl : Nat) : Nat → Int → List Nat → List (List Nat) → M (List (List Nat))
+  | 0, _, _, acc => pure acc
+  | n + 1, pos, buf, acc => do
+    seekSet (i.offset + (i.height - 1 - pos) * sl)
+    let site := fScan ++ ":read_row"
+    let (buf, got) ← readInto site buf sl
+    if got < sl then setTaint ("short row read used as pixel data in " ++ site) else pure ()
+    scanRows i sl n (pos + 1) buf (buf :: acc)
+
+def scan (i : Info) : M Img := do
+  if i.cmType ≠ 0 then ioErr
+  else if i.imageType ≠ 2 then ioErr
+  else if i.cmLength ≠ 0 then ioErr
+  else if i.origin then ioErr
+  else
+    let sl := i.width * (i.bpp / 8)
+    seekSet i.offset
+    alloc sl
+    let rs ← scanRows i sl.toNat i.height.toNat 0 (List.replicate sl.toNat 0) []
+    pure { hdr := [i.width, i.height, sl, i.height], pix := rs.reverse.flatten }
+
+def run (st : Settings) (fuel : Nat) : M Img := do
+  let i ← readHeader
+  let dimx := if st.dw == 0 then i.width else st.dw
+  let dimy := if st.dh == 0 then i.height else st.dh
+  match st.entry with
+  | .info => pure { hdr := [i.width, i.height, i.bpp, i.imageType, i.offset, i.descriptor, i.cmType, i.cmLength], pix := [] }
+  | .scan => scan i
+  | .view =>
+    checkImageSize st dimx dimy i.width i.height
+    let d ← apply i st dimx dimy fuel (Dest.mk' st.vw st.vh st.dst.nch)
+    pure { hdr := [st.vw, st.vh], pix := d.pix }
+  | _ =>
+    let d ← recreateImage st dimx dimy
+    let d ← apply i st dimx dimy fuel d
+    pure { hdr := [dimx, dimy], pix := d.pix }
+
+end Tga
+
 /-! ## top level -/
 
 inductive Fmt where
@@ -742,10 +1184,12 @@ def fuelFor (bytes : List UInt8) : Nat := bytes.length + 2
 
 /-- raw result: the monad's answer and the final state (the driver needs the taint separately) -/
 def runRaw (f : Fmt) (dev : Dev) (bytes : List UInt8) (st : Settings) : Except Stop (Img × St) :=
-  let s0 : St := { data := bytes.map UInt8.toNat, pos := 0, failed := false, dev := dev, taint := none }
+  let data := bytes.map UInt8.toNat
+  let s0 : St := { data := data, pos := 0, rest := data, failed := false, dev := dev, taint := none }
   match f with
   | .bmp => (Bmp.run st (fuelFor bytes)).run s0
-  | _ => .error (.err "io")
+  | .pnm => (Pnm.run st (fuelFor bytes)).run s0
+  | .tga => (Tga.run st (fuelFor bytes)).run s0
 
 /-- `decode`: the outcome the property speaks about. A successful return that consumed bytes a short read
     did not deliver counts as undefined behaviour (uninitialised / stale bytes used as data). -/
